@@ -154,6 +154,39 @@ fn run(op: &str, args: &[Sx]) -> Option<Sx> {
             }
             sx::l(out)
         }
+        // (history ctx step ...) on ONE context; step = ("e" "input") | ("d" "sing" "plur" "def" "attr")
+        // -> one ("o" text) | ("e" msg) per "e" step, in order (public API only)
+        "history" => {
+            let Some(spec) = args.first().and_then(ctxspec) else { return Some(sx::bad()) };
+            let mut ctx = public_context(&spec);
+            let mut outs = vec![];
+            for st in &args[1..] {
+                let Some(st) = st.as_list() else { return Some(sx::bad()) };
+                match st.first().and_then(Sx::as_str) {
+                    Some("e") => {
+                        let Some(t) = st.get(1).and_then(Sx::as_str) else { return Some(sx::bad()) };
+                        outs.push(match fend_core::evaluate_with_interrupt(t, &mut ctx, &fharness::NeverInt) {
+                            Ok(r) => sx::l(vec![sx::s("o"), sx::s(r.get_main_result())]),
+                            Err(m) => sx::l(vec![sx::s("e"), sx::s(&m)]),
+                        });
+                    }
+                    Some("d") => {
+                        let g = |i: usize| st.get(i).and_then(Sx::as_str);
+                        let (Some(a), Some(b), Some(d), Some(at)) = (g(1), g(2), g(3), g(4)) else { return Some(sx::bad()) };
+                        let attr = match at {
+                            "l" => fend_core::CustomUnitAttribute::AllowLongPrefix,
+                            "s" => fend_core::CustomUnitAttribute::AllowShortPrefix,
+                            "lp" => fend_core::CustomUnitAttribute::IsLongPrefix,
+                            "alias" => fend_core::CustomUnitAttribute::Alias,
+                            _ => fend_core::CustomUnitAttribute::None,
+                        };
+                        ctx.define_custom_unit_v1(a, b, d, &attr);
+                    }
+                    _ => return Some(sx::bad()),
+                }
+            }
+            sx::l(outs)
+        }
         // (eval ctx "input" ...) -> (("o" "text") | ("e" "msg") ...) in sequence on one context (public API only)
         "eval" => {
             let Some(spec) = args.first().and_then(ctxspec) else { return Some(sx::bad()) };
